@@ -71,7 +71,8 @@ IDENTITY = {
     "nalgebra::Matrix::as_view",
     "nalgebra::Matrix::clone_owned",
     "nalgebra::Matrix::into_owned",
-    "nalgebra::base::conversion::as_view",
+    "nalgebra::base::matrix_view::as_view",
+    "nalgebra::base::matrix_view::as_view_mut",
     "nalgebra::Matrix::as_slice",
     "std::vec::Vec::as_slice",
     "std::iter::IntoIterator::into_iter",
@@ -292,7 +293,7 @@ class Eval:
             return self.lookup(env, place_key(o["place"]), point)
         if k == "const":
             if "fn" in o:
-                return ("fnref", callee_id(o["fn"]), o["fn"].get("key") or o["fn"].get("resolved_key"))
+                return ("fnref", callee_id(o["fn"]), o["fn"].get("resolved_key") or o["fn"].get("key"))
             if "closure" in o:
                 return ("closure", o["closure"], ())
             if "param" in o:
@@ -579,7 +580,7 @@ class Eval:
         if cid == "std::ops::FromResidual::from_residual":
             return ("from_residual", args[0])
         # ---- local callees are inlined ----
-        key = fn.get("key") or fn.get("resolved_key")
+        key = fn.get("resolved_key") or fn.get("key")
         if key and key in self.facts.bodies and key not in self.opaque and env.depth < self.max_inline:
             cb = self.facts.bodies[key]
             return self.ret_val(Env(cb, {i + 1: x for i, x in enumerate(args)}, env.depth + 1))
